@@ -60,7 +60,13 @@ impl TraitHandler for CloneEnumHandler {
             }
 
             #[cfg(feature = "Copy")]
-            let contains_copy = !has_custom_clone_method && traits.contains(&Trait::Copy);
+            let impl_copy = traits.contains(&Trait::Copy);
+
+            #[cfg(not(feature = "Copy"))]
+            let impl_copy = false;
+
+            #[cfg(feature = "Copy")]
+            let contains_copy = !has_custom_clone_method && impl_copy;
 
             #[cfg(not(feature = "Copy"))]
             let contains_copy = false;
@@ -115,6 +121,11 @@ impl TraitHandler for CloneEnumHandler {
                                     .extend(quote!(#field_name_real: #field_name_dst,));
 
                                 if let Some(clone) = field_attribute.method.as_ref() {
+                                    if impl_copy {
+                                        // the `Copy` implementation needs every field to be `Copy`
+                                        clone_types.push(&field.ty);
+                                    }
+
                                     cl_fields_token_stream.extend(quote! {
                                         #field_name_real: #clone(#field_name_src),
                                     });
@@ -165,6 +176,11 @@ impl TraitHandler for CloneEnumHandler {
                                 pattern2_token_stream.extend(quote!(#field_name_dst,));
 
                                 if let Some(clone) = field_attribute.method.as_ref() {
+                                    if impl_copy {
+                                        // the `Copy` implementation needs every field to be `Copy`
+                                        clone_types.push(&field.ty);
+                                    }
+
                                     fields_token_stream.extend(quote! (#clone(#field_name_src),));
                                     body_token_stream.extend(
                                         quote!(*#field_name_src = #clone(#field_name_dst);),
@@ -215,7 +231,7 @@ impl TraitHandler for CloneEnumHandler {
 
             bound = type_attribute.bound.into_where_predicates_by_generic_parameters_check_types(
                 &ast.generics.params,
-                &syn::parse2(if contains_copy {
+                &syn::parse2(if impl_copy {
                     quote!(::core::marker::Copy)
                 } else {
                     quote!(::core::clone::Clone)
